@@ -1011,6 +1011,7 @@ func runC08(ctx *Ctx) {
 	// (0) the assumed laws, probed on the real code; helper correspondences
 	if sec("0") {
 		c08Probes(ctx)
+		c08D08(c)
 		for _, s := range c08NumStrings {
 			c08Parse(ctx, s)
 		}
